@@ -18,14 +18,15 @@ import (
 const verifDir = "/verif"
 
 type CheckDef struct {
-	ID       string
-	Title    string
-	Pkgs     []string                        // harness packages used (for replay)
-	Gen      func(tier string) []*Config     // configuration enumeration
-	Bounds   func(tier string) string        // human-readable bounds
-	Assume   []string                        // assumptions / trusted base
-	Rule     string
-	MaxPaths int64
+	ID         string
+	Title      string
+	Pkgs       []string                    // harness packages used (for replay)
+	Gen        func(tier string) []*Config // configuration enumeration
+	Bounds     func(tier string) string    // human-readable bounds
+	Assume     []string                    // assumptions / trusted base
+	Rule       string
+	MaxPaths   int64
+	CfgTimeout int // per-configuration time budget in seconds for the quick tier (0 = default)
 }
 
 var checks = map[string]*CheckDef{}
@@ -33,16 +34,16 @@ var checks = map[string]*CheckDef{}
 func registerCheck(c *CheckDef) { checks[c.ID] = c }
 
 type KnownFinding struct {
-	ID         string     `json:"id"`
-	Property   string     `json:"property"`             // property whose check reports it
-	AlsoIn     []string   `json:"also_in,omitempty"`    // other properties whose checks exclude it too
-	Status     string     `json:"status"`               // open | fixed
-	Title      string     `json:"title"`
-	Witness    ReplayCase `json:"witness"`              // one concrete failing input (harness + arguments)
-	Pkg        string     `json:"pkg"`                  // package of the witness harness
-	Configs    []string   `json:"scope_configs,omitempty"` // configuration-id globs skipped while the finding is active
-	Predicate  string     `json:"scope_predicate,omitempty"` // name of the vv.Known predicate in the harness (documentation)
-	Note       string     `json:"note,omitempty"`
+	ID        string     `json:"id"`
+	Property  string     `json:"property"`          // property whose check reports it
+	AlsoIn    []string   `json:"also_in,omitempty"` // other properties whose checks exclude it too
+	Status    string     `json:"status"`            // open | fixed
+	Title     string     `json:"title"`
+	Witness   ReplayCase `json:"witness"`                   // one concrete failing input (harness + arguments)
+	Pkg       string     `json:"pkg"`                       // package of the witness harness
+	Configs   []string   `json:"scope_configs,omitempty"`   // configuration-id globs skipped while the finding is active
+	Predicate string     `json:"scope_predicate,omitempty"` // name of the vv.Known predicate in the harness (documentation)
+	Note      string     `json:"note,omitempty"`
 }
 
 func globMatch(pat, s string) bool {
@@ -97,15 +98,15 @@ type Evidence struct {
 }
 
 type checkOpts struct {
-	tier    string
-	workers int
-	strict  bool
-	solver  string
-	cross   string
-	filter  string
-	verbose bool
-	timeout int
-	limit   int
+	tier       string
+	workers    int
+	strict     bool
+	solver     string
+	cross      string
+	filter     string
+	verbose    bool
+	timeout    int
+	limit      int
 	cfgTimeout int
 }
 
@@ -161,7 +162,7 @@ func runCheck(id string, o checkOpts) int {
 			o := outs[c.ID]
 			if o.Outcome == "assert" || o.Outcome == "panic" || o.Outcome == "timeout" {
 				active = append(active, c.ID)
-				fmt.Printf("KNOWN-FINDING: property=%s %s [%s] witness %s(%s)\n", kfByID[c.ID].Property, kfByID[c.ID].Title, c.ID, c.Func, strings.Join(c.Args, ", "))
+				fmt.Printf("KNOWN-FINDING: property=%s %s [%s] witness %s(%s)\n", id, kfByID[c.ID].Title, c.ID, c.Func, strings.Join(c.Args, ", "))
 				kfSeen = append(kfSeen, c.ID)
 			} else {
 				fmt.Printf("NOTE: known finding %s no longer reproduces (outcome %s); no exclusion applied\n", c.ID, o.Outcome)
@@ -215,6 +216,9 @@ func runCheck(id string, o checkOpts) int {
 			j := int((r >> 33) % uint64(i+1))
 			cfgs[i], cfgs[j] = cfgs[j], cfgs[i]
 		}
+	}
+	if cd.CfgTimeout > 0 && o.tier != "thorough" && o.cfgTimeout < cd.CfgTimeout {
+		o.cfgTimeout = cd.CfgTimeout
 	}
 	maxPaths := cd.MaxPaths
 	if maxPaths == 0 {
@@ -289,10 +293,10 @@ func runCheck(id string, o checkOpts) int {
 
 	// aggregate
 	var tot struct {
-		paths, instrs, asserts, triv, mergedPaths     int64
-		q, unsat, sat, unk                            int
-		solverS                                       float64
-		vacuous, inconclCfgs                          int
+		paths, instrs, asserts, triv, mergedPaths int64
+		q, unsat, sat, unk                        int
+		solverS                                   float64
+		vacuous, inconclCfgs                      int
 	}
 	funcs := map[string]int64{}
 	natives := map[string]int64{}
@@ -512,35 +516,35 @@ func runCheck(id string, o checkOpts) int {
 			"z3 4.8.12 decides the Int/Bool queries correctly",
 		}, cd.Assume...),
 		Coverage: map[string]interface{}{
-			"states":                        tot.paths + tot.mergedPaths,
-			"transitions":                   tot.instrs,
-			"traces_validated_against_impl": validated,
-			"samples":                       samples,
-			"explanation":                   cd.Title,
-			"rule":                          cd.Rule,
-			"bounds":                        cd.Bounds(o.tier),
-			"configs":                       len(cfgs),
-			"top_level_paths":               tot.paths,
-			"merged_call_paths":             tot.mergedPaths,
-			"assertions_discharged_by_solver": tot.asserts,
-			"assertions_decided_syntactically": tot.triv,
-			"queries":                       map[string]int{"total": tot.q, "unsat": tot.unsat, "sat": tot.sat, "unknown": tot.unk},
-			"solver":                        o.solver,
-			"solver_s":                      tot.solverS,
-			"load_s":                        loadS,
-			"vacuous_configs":               tot.vacuous,
-			"unexplored_configs":            tot.inconclCfgs,
-			"engine_mismatches":             mismatches,
-			"inconclusive":                  firstN(inconcl, 20),
-			"functions_encoded":             topFuncs,
-			"functions_encoded_total":       len(funcs),
-			"natives_used":                  natives,
-			"notes":                         notes,
-			"known_findings_seen":           kfSeen,
+			"states":                             tot.paths + tot.mergedPaths,
+			"transitions":                        tot.instrs,
+			"traces_validated_against_impl":      validated,
+			"samples":                            samples,
+			"explanation":                        cd.Title,
+			"rule":                               cd.Rule,
+			"bounds":                             cd.Bounds(o.tier),
+			"configs":                            len(cfgs),
+			"top_level_paths":                    tot.paths,
+			"merged_call_paths":                  tot.mergedPaths,
+			"assertions_discharged_by_solver":    tot.asserts,
+			"assertions_decided_syntactically":   tot.triv,
+			"queries":                            map[string]int{"total": tot.q, "unsat": tot.unsat, "sat": tot.sat, "unknown": tot.unk},
+			"solver":                             o.solver,
+			"solver_s":                           tot.solverS,
+			"load_s":                             loadS,
+			"vacuous_configs":                    tot.vacuous,
+			"unexplored_configs":                 tot.inconclCfgs,
+			"engine_mismatches":                  mismatches,
+			"inconclusive":                       firstN(inconcl, 20),
+			"functions_encoded":                  topFuncs,
+			"functions_encoded_total":            len(funcs),
+			"natives_used":                       natives,
+			"notes":                              notes,
+			"known_findings_seen":                kfSeen,
 			"configs_excluded_by_known_findings": excluded,
-			"inputs_covered":                inputs.String(),
-			"confirmed_violations":          firstW(confirmed, 10),
-			"exhaustive":                    false,
+			"inputs_covered":                     inputs.String(),
+			"confirmed_violations":               firstW(confirmed, 10),
+			"exhaustive":                         false,
 		}}
 	b, _ := json.MarshalIndent(ev, "", " ")
 	os.WriteFile(filepath.Join(verifDir, "evidence", id+".json"), b, 0o644)
